@@ -47,14 +47,24 @@ class ConnectComp(TimeComponent):
                 if isinstance(i["info"], list):
                     in_rules[i["name"]] = [FromOutput(i["info"][1]), FromValue("time", self.time)]
         for o in s["outputs"]:
-            if o["info"] == "known":
-                self.outputs.add(name=o["name"], time=self.time, grid=NoGrid(), units="m")
+            if o.get("okind") == "callback":
+                # pull-based output: no initial publication, the provider answers once the component is through
+                self.outputs.add(fm.CallbackOutput(callback=lambda caller, t, o=o: self._provide(o), name=o["name"],
+                                                   time=self.time, grid=NoGrid(), units="m"))
+            elif o["info"] == "known":
+                self.outputs.add(name=o["name"], time=self.time, grid=NoGrid(), units="m",
+                                 static=o.get("okind") == "static")
             else:
                 self.outputs.add(name=o["name"])
                 if isinstance(o["info"], list):
                     out_rules[o["name"]] = [FromInput(o["info"][1]), FromValue("time", self.time)]
         self.create_connector(pull_data=[i["name"] for i in s["inputs"] if i["pull"]],
                               in_info_rules=in_rules, out_info_rules=out_rules, cache=s.get("cache", True))
+
+    def _provide(self, o):
+        if o["data"] == "computed" and not self.connector.all_data_pulled:
+            return None          # "no data yet"
+        return self.out_value(o)
 
     def out_value(self, o):
         v = float(o["base"])
@@ -71,6 +81,8 @@ class ConnectComp(TimeComponent):
         pi = {o["name"]: self._info() for o in s["outputs"] if o["info"] == "connect"}
         pd = {}
         for o in s["outputs"]:
+            if o.get("okind") == "callback":
+                continue
             if o["data"] == "const" or self.connector.all_data_pulled:
                 pd[o["name"]] = self.out_value(o)
         self.try_connect(start_time, exchange_infos=ex, push_infos=pi, push_data=pd)
@@ -121,8 +133,13 @@ def m_connect(sc):
                 if has("out_info", ci, oi) and all(has("in_exch", *t) for t in tg):
                     add("out_exch", ci, oi)
                 data_av = o["data"] == "const" or all(has("pulled", ci, k) for k, i in enumerate(c["inputs"]) if i["pull"])
-                if has("out_exch", ci, oi) and data_av:
+                if o.get("okind") == "callback":
+                    add("pushed_done", ci, oi)          # nothing to publish for a pull-based output
+                    if has("out_exch", ci, oi) and data_av:
+                        add("pushed", ci, oi)           # = its provider can answer
+                elif has("out_exch", ci, oi) and data_av:
                     add("pushed", ci, oi)
+                    add("pushed_done", ci, oi)
             for ii, i in enumerate(c["inputs"]):
                 if i["info"] in ("known", "connect", "known+connect"):
                     add("in_info", ci, ii)
@@ -138,7 +155,7 @@ def m_connect(sc):
     connected = set()
     for ci, c in enumerate(comps):
         ok = all(has("in_exch", ci, ii) and (not i["pull"] or has("pulled", ci, ii)) for ii, i in enumerate(c["inputs"])) \
-            and all(has("out_exch", ci, oi) and has("pushed", ci, oi) for oi, o in enumerate(c["outputs"]))
+            and all(has("out_exch", ci, oi) and has("pushed_done", ci, oi) for oi, o in enumerate(c["outputs"]))
         if ok:
             connected.add(ci)
     return connected, facts
@@ -354,8 +371,10 @@ def run_e2(sc):
                             v("initial-value", "value", f"{comp.name}.{i['name']}: initial pull {None if got is None else mag(got)}, producer's initial value {want}")
                 for oi, o in enumerate(comps_spec[ci]["outputs"]):
                     pubs = [e[2] for e in rec.events if e[0] == "PUSH" and e[1] == f"{comp.name}.{o['name']}"]
-                    has_t = any(l["src"] == [ci, oi] for l in sc["links"])
+                    has_t = any(l["src"] == [ci, oi] for l in sc["links"]) and o.get("okind") != "callback"
                     want_p = ([t0] if comps_spec[ci]["start"] == t0 else [t0, comps_spec[ci]["start"]]) if has_t else None
+                    if has_t and o.get("okind") == "static":
+                        want_p = [None]
                     if has_t and pubs != want_p:
                         v("initial-publications", "times", f"{comp.name}.{o['name']}: initial publications at {pubs}, expected {want_p}")
                     if want_p and len(want_p) == 2:
